@@ -628,6 +628,8 @@ def m_range(interp, *args):
 
 def m_enumerate(interp, it, start=0):
     from .interp import SymSeq
+    if hasattr(it, "as_symseq"):
+        it = it.as_symseq()
     if isinstance(it, SymSeq):
         return SymSeq(it.length, lambda k: (k + start, it.item(k)), "enumerate")
     return enumerate(interp.iterate(it), start)
